@@ -36,7 +36,10 @@ RULE = ('kernel cases: seeded record columns of 2-12 surfaces, sphere centres ne
         'tables up to 6 fields x 3 wavelengths.  System cases: seeded lenses of 1-12 surfaces (planes, conics, aspheres, '
         'polynomial/Chebyshev, mirrors, decentres, apertures, coatings, catalogue/ideal media, image/object media other than air, '
         'non-positive field sets, vignetting factors), infinite+angle and finite+height, all 8 pupil distributions, real and '
-        'virtual exit pupils; non-trivial = finite reported OPD on a distinct (lens, field, wavelength, distribution)')
+        'virtual exit pupils, curved image surfaces (25 %); multi-wavelength calls on dispersive catalogue-glass lenses with off-axis '
+        'fields (explicit wavelength list in both orders, \'all\', OPDFan, RmsWavefrontErrorVsField): every (field, wavelength) cell '
+        'against the oracle and the model generate_data, per-wavelength results independent of the list order; '
+        'non-trivial = finite reported OPD on a distinct (lens, field, wavelength, distribution)')
 PARTIAL = [
     'the optical path recorded by the trace (sum of n*length) is C02\'s theorem, here a hypothesis of the model (ropd)',
     'exact zero for the chief ray is proved over the reals (and holds bit-for-bit in binary64 through closed-form surfaces: '
